@@ -8,6 +8,10 @@
 mod jar;
 mod nests;
 mod oracle;
+mod rich;
+#[allow(dead_code)]
+#[path = "../c07/spec.rs"]
+mod refspec;
 
 use fbh::gal::*;
 use fbh::mapmodel::*;
@@ -30,40 +34,72 @@ type Q = Mappings<2, (NA, NB)>;
 
 type Answer<T> = Result<Option<T>, String>;
 
-fn impl_apply(m: &MMappings, t: &MTable) -> anyhow::Result<Answer<MMappings>> {
+fn impl_apply(m: &MMappings, n: &Nests<NA>) -> anyhow::Result<Answer<MMappings>> {
 	let q: Q = to_quill(m)?;
-	let n: Nests<NA> = to_nests(t);
 	let mut desync = vec![];
-	let r = guarded(AssertUnwindSafe(move || dukenest::apply_nests_to_mappings(q, &n).ok()));
+	let r = guarded(AssertUnwindSafe(move || dukenest::apply_nests_to_mappings(q, n).ok()));
 	let r = r.map(|o| o.map(|x| from_quill(&x, &mut desync)));
 	if !desync.is_empty() { anyhow::bail!("result tree has keys out of sync with its nodes: {desync:?}"); }
 	Ok(r)
 }
-fn impl_undo(m: &MMappings, t: &MTable) -> anyhow::Result<Answer<MMappings>> {
+fn impl_undo(m: &MMappings, n: &Nests<NA>) -> anyhow::Result<Answer<MMappings>> {
 	let q: Q = to_quill(m)?;
-	let n: Nests<NA> = to_nests(t);
 	let mut desync = vec![];
-	let r = guarded(AssertUnwindSafe(move || dukenest::undo_nests_to_mappings(q, &n).ok()));
+	let r = guarded(AssertUnwindSafe(move || dukenest::undo_nests_to_mappings(q, n).ok()));
 	let r = r.map(|o| o.map(|x| from_quill(&x, &mut desync)));
 	if !desync.is_empty() { anyhow::bail!("result tree has keys out of sync with its nodes: {desync:?}"); }
 	Ok(r)
 }
-fn impl_map_nests(m: &MMappings, t: &MTable) -> anyhow::Result<Answer<MTable>> {
+fn impl_map_nests(m: &MMappings, n: &Nests<NA>) -> anyhow::Result<Answer<MTable>> {
 	let q: Q = to_quill(m)?;
-	let n: Nests<NA> = to_nests(t);
 	let mut desync = vec![];
-	let r = guarded(AssertUnwindSafe(|| dukenest::remap_nests(&n, &q).ok()));
+	let r = guarded(AssertUnwindSafe(|| dukenest::remap_nests(n, &q).ok()));
 	let r = r.map(|o| o.map(|x| from_nests(&x, &mut desync)));
 	if !desync.is_empty() { anyhow::bail!("nests keys out of sync: {desync:?}"); }
 	Ok(r)
 }
-fn impl_read(text: &S) -> Answer<MTable> {
+fn read_nests(text: &S) -> Result<Option<Nests<NA>>, String> {
 	let s: String = text.iter().map(|&c| char::from_u32(c).expect("scalar")).collect();
 	let bytes = s.into_bytes();
-	let mut desync = vec![];
-	let r = guarded(move || Nests::<NA>::read(&bytes).ok());
-	r.map(|o| o.map(|x| from_nests(&x, &mut desync)))
+	guarded(move || Nests::<NA>::read(&bytes).ok())
 }
+fn impl_read(text: &S) -> Answer<MTable> {
+	let mut desync = vec![];
+	read_nests(text).map(|o| o.map(|x| from_nests(&x, &mut desync)))
+}
+
+/// The table the implementation is given.  Worlds marked `via_text` go through the TEXT reader
+/// (`Nests::read` of the table's text form) instead of being built in memory; the nest kinds the
+/// reader assigns are compared with the independent ASCII-only classification (`ascii_kind`), and the
+/// run continues with what the reader returned, so that a wrong kind also shows where it hurts (jar
+/// and mappings disagree).
+fn world_nests(r: &mut Report, w: &World, stream: &str) -> Nests<NA> {
+	if !w.via_text { r.count("table_built_in_memory"); return to_nests(&w.t); }
+	let text = text_of(&w.t);
+	match read_nests(&text) {
+		Ok(Some(n)) => {
+			r.count("table_read_from_text");
+			let mut desync = vec![];
+			let back = from_nests(&n, &mut desync);
+			if back != w.t {
+				let kinds: Vec<String> = back.iter().zip(&w.t).filter(|(a, b)| a.kind != b.kind).map(|(a, b)| format!("inner name {} of class {}: reader says {}, ASCII-only classification (jar nester, NestTypeA) says {}", show(&a.inner), show(&a.class), kind_name(a.kind), kind_name(b.kind))).collect();
+				let what = if kinds.is_empty() { "Nests::read of the text form of a table does not give the table back".to_string() } else { format!("Nests::read assigns a nest kind that the rest of dukenest does not: {}", kinds.join("; ")) };
+				r.violation(what.clone(), format!("property C14 (stream {stream})\nwhat: {what}\ntable:\n{}read back:\n{}text: {:?}\ncode points: {}\n", show_table(&w.t), show_table(&back), show(&text), gstr(&text)));
+			}
+			n
+		}
+		other => {
+			// the text form of a generated table must be readable unless the world is malformed on purpose
+			if w.flavor != Flavor::Weird {
+				let what = format!("Nests::read {} on the text form of a well-formed table", if other.is_err() { "panicked" } else { "returned Err" });
+				r.violation(what.clone(), format!("property C14 (stream {stream})\nwhat: {what}\ntable:\n{}text: {:?}\n", show_table(&w.t), show(&text)));
+			}
+			r.count("table_text_not_readable(in-memory table used)");
+			to_nests(&w.t)
+		}
+	}
+}
+fn kind_name(k: u8) -> &'static str { match k { ANON => "anonymous", INNER => "inner", _ => "local" } }
 
 fn g_outcome(a: &Answer<MMappings>) -> String {
 	match a { Err(_) => "OPanic".into(), Ok(None) => "OErr".into(), Ok(Some(m)) => format!("(OOk {})", g_mappings(m)) }
@@ -82,15 +118,27 @@ const DST_SIMPLE: [&str; 12] = ["X", "Y", "Zed", "C_7", "C_45", "C_123", "M", "M
 const DST_PKGS: [&str; 4] = ["", "x/", "net/minecraft/unmapped/", "m/"];
 const MEMBER: [&str; 8] = ["a", "b", "m_1", "f_2", "run", "<init>", "get", "x"];
 const ACCESS: [u16; 8] = [0, 0x0001, 0x0008, 0x0019, 0x1000, 0x4010, 0x0608, 0x761F];
+/// inner names made of / starting with / continuing with numeric characters that are NOT ASCII digits
+/// (Arabic-Indic, fullwidth, superscript, circled, Roman numeral): `char::is_numeric` is true for them,
+/// `is_ascii_digit` is not.  Every site of dukenest that interprets an inner name must agree on them.
+const NUM_INNER: [&str; 12] = ["٤٢", "1٣", "٣D", "１２", "²", "1²x", "７Foo", "12３", "٣", "3①", "Ⅷ", "١Loc"];
+/// Calamus-style target names C_<n> whose <n> is not made of ASCII digits
+const NUM_DST: [&str; 6] = ["C_٤٢", "C_１２", "C_1²", "C_12３", "C_٣", "C_①"];
 
-#[derive(Clone, Copy, PartialEq)]
-enum Flavor { Valid, NoDst, Collide, Weird }
+#[derive(Clone, Copy, PartialEq, Debug)]
+enum Flavor { Valid, NoDst, Collide, Weird, Cyclic }
 
-struct World { m: MMappings, t: MTable, j: Vec<JSpec> }
+struct World { m: MMappings, t: MTable, j: Vec<JSpec>, flavor: Flavor, via_text: bool }
 
-fn gen_world(rng: &mut Rng, flavor: Flavor) -> World {
+/// number of nests listed BEFORE the nest of their own enclosing class (an order in which a
+/// single pass over the table has not seen the enclosing class's translation yet)
+fn listed_before_enclosing(t: &MTable) -> usize {
+	t.iter().enumerate().filter(|(i, n)| t.iter().skip(i + 1).any(|e| e.class == n.encl)).count()
+}
+
+fn gen_world(rng: &mut Rng, flavor: Flavor, via_text: bool) -> World {
 	// universe of source class names; a nest of U[i] may only be enclosed by U[j], j < i, or by an
-	// outside name: acyclic by construction
+	// outside name: acyclic by construction (the Cyclic flavour adds a back edge afterwards)
 	let nu = rng.range(2, 8);
 	let mut u: Vec<S> = vec![];
 	let mut tries = 0;
@@ -98,7 +146,8 @@ fn gen_world(rng: &mut Rng, flavor: Flavor) -> World {
 		tries += 1;
 		let name = if !u.is_empty() && rng.chance(1, 3) {
 			let mut p = rng.pick(&u[..]).clone(); p.push('$' as u32);
-			if rng.chance(1, 3) { p.extend(cps_str(&rng.range(1, 12).to_string())); } else { p.extend(cps_str(*rng.pick(&SIMPLE[..]))); }
+			if rng.chance(1, 6) { p.extend(cps_str(*rng.pick(&NUM_INNER[..]))); }
+			else if rng.chance(1, 3) { p.extend(cps_str(&rng.range(1, 12).to_string())); } else { p.extend(cps_str(*rng.pick(&SIMPLE[..]))); }
 			p
 		} else { let mut p = cps_str(*rng.pick(&PKGS[..])); p.extend(cps_str(*rng.pick(&SIMPLE[..]))); p };
 		if !u.contains(&name) { u.push(name); }
@@ -112,6 +161,7 @@ fn gen_world(rng: &mut Rng, flavor: Flavor) -> World {
 	for (i, src) in u.iter().enumerate() {
 		if !in_m[i] { continue; }
 		let mut dst = cps_str(*rng.pick(&DST_PKGS[..])); dst.extend(cps_str(*rng.pick(&DST_SIMPLE[..if flavor == Flavor::Weird { 12 } else { 10 }])));
+		if rng.chance(1, 8) { dst = cps_str(*rng.pick(&DST_PKGS[..])); dst.extend(cps_str(*rng.pick(&NUM_DST[..]))); }
 		if rng.chance(1, 4) {
 			// target names that already use nesting: Encl__Inner (also chains, also next to a package)
 			let mut e = if !dsts.is_empty() && rng.chance(1, 2) { rng.pick(&dsts[..]).clone() } else { dst.clone() };
@@ -164,8 +214,13 @@ fn gen_world(rng: &mut Rng, flavor: Flavor) -> World {
 			_ => cps_str(*rng.pick(&["1", "2", "13", "007", "1"][..])),
 		};
 		let mut kind = kind;
+		if rng.chance(1, 6) {
+			// numeric characters of other scripts: the kind is what the ASCII-only rule says
+			inner = cps_str(*rng.pick(&NUM_INNER[..]));
+			kind = ascii_kind(&inner);
+		}
 		if flavor == Flavor::Weird && rng.chance(1, 4) {
-			inner = cps_str(*rng.pick(&["+1", "-1", "0", "99999999999", "2147483647", "2147483648", "1x", "x1", "", "a/b", "12", "00"][..]));
+			inner = cps_str(*rng.pick(&["+1", "-1", "0", "99999999999", "2147483647", "2147483648", "1x", "x1", "", "a/b", "12", "00", "+٣", "٠", "１"][..]));
 			kind = *rng.pick(&[INNER, LOCAL, ANON][..]);
 		}
 		// enclosing method: one the enclosing class really has in M, or any
@@ -179,7 +234,10 @@ fn gen_world(rng: &mut Rng, flavor: Flavor) -> World {
 	}
 	// nests for classes that exist nowhere
 	if rng.chance(1, 4) { t.push(MNest { kind: INNER, class: cps_str("gone/Missing"), encl: if u.is_empty() { cps_str("Outer") } else { rng.pick(&u[..]).clone() }, meth: None, inner: cps_str("Missing"), access: 1 }); }
+	// the order of the table carries no meaning: random, and in one world of four inner-most first
+	// (every nest before the nest of its enclosing class)
 	rng.shuffle(&mut t);
+	if rng.chance(1, 4) { let ix = index(&t); let d: Vec<usize> = t.iter().map(|n| depth(&ix, &n.class)).collect(); let mut order: Vec<usize> = (0..t.len()).collect(); order.sort_by(|a, b| d[*b].cmp(&d[*a])); t = order.iter().map(|&i| t[i].clone()).collect(); }
 
 	if flavor == Flavor::Collide && !t.is_empty() {
 		// a class of M that is not listed but carries the very name a listed class is renamed to
@@ -191,8 +249,90 @@ fn gen_world(rng: &mut Rng, flavor: Flavor) -> World {
 			}
 		}
 	}
+	if flavor == Flavor::Cyclic && !t.is_empty() {
+		if rng.chance(1, 2) || t.len() < 2 {
+			// a cycle in the table itself: i enclosed by j (and j by i); i = j is a class enclosed by itself
+			let (i, j) = (rng.below(t.len()), rng.below(t.len()));
+			t[i].encl = t[j].class.clone();
+			if acyclic(&t) { t[j].encl = t[i].class.clone(); }
+		} else {
+			// an acyclic table whose IMAGE in the target namespace is cyclic: c2 enclosed by c1, c1 mapped to
+			// the already nested name <target of c2>__Q, which makes the image of c1 enclosed by the image of c2
+			let (i, j) = (0, 1 + rng.below(t.len() - 1));
+			let (c1, c2) = (t[i].class.clone(), t[j].class.clone());
+			let saved = t[j].encl.clone();
+			t[j].encl = c1.clone();
+			if !acyclic(&t) { t[j].encl = saved; } else {
+				let p: S = cps_str(&format!("m/P{}", rng.below(9)));
+				let mut pq = p.clone(); pq.extend(cps_str("__Q"));
+				for (src, dst) in [(&c2, p), (&c1, pq)] {
+					match m.classes.iter_mut().find(|c| c.names[0].as_ref() == Some(src)) {
+						Some(c) => c.names[1] = Some(dst),
+						None => m.classes.push(MClass { names: vec![Some(src.clone()), Some(dst)], doc: None, fields: vec![], methods: vec![] }),
+					}
+				}
+			}
+		}
+	}
+	if via_text {
+		// what the text format can express: no empty inner names, kinds derived from the inner name
+		t.retain(|n| !n.inner.is_empty());
+		for n in &mut t { n.kind = ascii_kind(&n.inner); }
+	}
 	let j = gen_jar(rng, &u, &m, &t, flavor);
-	World { m, t, j }
+	World { m, t, j, flavor, via_text }
+}
+
+fn mk_class(name: &str, methods: &[(&str, &str)]) -> JSpec {
+	JSpec { major: 52, access: 0x0021, name: cps_str(name), super_class: Some(cps_str(OBJECT)), interfaces: vec![], fields: vec![],
+		methods: methods.iter().map(|(n, d)| JMethod { access: 0x0401, name: cps_str(n), desc: cps_str(d), code: None, exceptions: vec![] }).collect(), inner: None, encl: None }
+}
+fn mk_nest(kind: u8, class: &str, encl: &str, meth: Option<(&str, &str)>, inner: &str, access: u16) -> MNest {
+	MNest { kind, class: cps_str(class), encl: cps_str(encl), meth: meth.map(|(a, b)| (cps_str(a), cps_str(b))), inner: cps_str(inner), access }
+}
+fn mk_mappings(rows: &[(&str, &str, &[(&str, &str)], &[(&str, &str)])]) -> MMappings {
+	MMappings { ns: vec![cps_str("official"), cps_str("named")], doc: None, classes: rows.iter().map(|(a, b, fs, ms)| MClass {
+		names: vec![Some(cps_str(a)), Some(cps_str(b))], doc: None,
+		fields: fs.iter().map(|(n, d)| MField { desc: cps_str(d), names: vec![Some(cps_str(n)), Some(cps_str(n))], doc: None }).collect(),
+		methods: ms.iter().map(|(n, d)| MMeth { desc: cps_str(d), names: vec![Some(cps_str(n)), Some(cps_str(n))], doc: None, params: vec![] }).collect() }).collect() }
+}
+/// worlds that are in every run whatever the seed: chains listed inner-most first, the witness of a
+/// cyclic image (c1 -> P__Q, c2 -> P), the order-dependent creation of a listed class, inner names
+/// with numeric characters that are not ASCII digits (read from text)
+fn fixed_worlds() -> Vec<(&'static str, World)> {
+	let mut v = vec![];
+	let chain_m = mk_mappings(&[("a", "pkg/Outer", &[("f", "Lc;")], &[("m", "(Lb;)[Lc;"), ("k", "()Ld;")]), ("b", "pkg/Middle", &[("g", "La;")], &[]), ("c", "pkg/Deep", &[], &[("<init>", "(Lc;Lb;La;)V")]), ("d", "pkg/C_5", &[], &[])]);
+	let chain_j = vec![mk_class("a", &[("m", "(Lb;)[Lc;")]), mk_class("b", &[]), mk_class("c", &[("run", "()V")]), mk_class("d", &[])];
+	for via_text in [false, true] {
+		v.push(("fixed-inner-most-first", World { m: chain_m.clone(), j: chain_j.clone(), flavor: Flavor::Valid, via_text,
+			t: vec![mk_nest(INNER, "c", "b", None, "C", 1), mk_nest(INNER, "b", "a", None, "B", 9)] }));
+		v.push(("fixed-inner-most-first", World { m: chain_m.clone(), j: chain_j.clone(), flavor: Flavor::Valid, via_text,
+			t: vec![mk_nest(ANON, "d", "c", Some(("run", "()V")), "1", 0), mk_nest(INNER, "c", "b", None, "C", 1), mk_nest(INNER, "b", "a", None, "B", 9)] }));
+		v.push(("fixed-inner-most-first", World { m: chain_m.clone(), j: chain_j.clone(), flavor: Flavor::Valid, via_text,
+			t: vec![mk_nest(INNER, "b", "a", None, "B", 9), mk_nest(ANON, "d", "c", Some(("run", "()V")), "1", 0), mk_nest(INNER, "c", "b", None, "C", 1)] }));
+	}
+	// acyclic table, well-formed injective mappings, cyclic image (theorem C14_map_nests_can_create_cycle)
+	v.push(("fixed-cyclic-image", World { m: mk_mappings(&[("c1", "P__Q", &[], &[]), ("c2", "P", &[], &[])]), j: vec![mk_class("c1", &[]), mk_class("c2", &[]), mk_class("Outer", &[])], flavor: Flavor::Cyclic, via_text: false,
+		t: vec![mk_nest(INNER, "c1", "Outer", None, "I", 1), mk_nest(INNER, "c2", "c1", None, "J", 1)] }));
+	// cyclic tables
+	v.push(("fixed-cyclic", World { m: mk_mappings(&[("A", "X", &[], &[])]), j: vec![mk_class("A", &[]), mk_class("B", &[])], flavor: Flavor::Cyclic, via_text: true,
+		t: vec![mk_nest(INNER, "A", "B", None, "A", 0), mk_nest(INNER, "B", "A", None, "B", 0)] }));
+	v.push(("fixed-cyclic", World { m: mk_mappings(&[("A", "X", &[("f", "LA;")], &[])]), j: vec![mk_class("A", &[])], flavor: Flavor::Cyclic, via_text: false,
+		t: vec![mk_nest(INNER, "A", "A", None, "A", 0)] }));
+	// the order-dependent filter (theorem C14_filter_order_dependent): jar {Y}; X in Z, Y in X
+	for rev in [false, true] {
+		let mut t = vec![mk_nest(INNER, "X", "Z", None, "X", 1), mk_nest(INNER, "Y", "X", None, "Y", 1)];
+		if rev { t.reverse(); }
+		v.push(("fixed-order", World { m: mk_mappings(&[("X", "x/Ex", &[], &[]), ("Y", "x/Why", &[("f", "LX;")], &[])]), j: vec![mk_class("Y", &[])], flavor: Flavor::Valid, via_text: false, t }));
+	}
+	// numeric characters that are not ASCII digits, through the text reader
+	v.push(("fixed-numerics", World { m: mk_mappings(&[("a", "pkg/Outer", &[("f", "Lc;"), ("g", "Ld;"), ("h", "Le;")], &[("m", "()V")]), ("c", "pkg/C_12", &[], &[]), ("d", "pkg/Dee", &[], &[]), ("e", "pkg/C_٤٢", &[], &[]), ("g", "pkg/C_7", &[], &[])]),
+		j: vec![mk_class("a", &[("m", "()V")]), mk_class("c", &[]), mk_class("d", &[]), mk_class("e", &[]), mk_class("g", &[])], flavor: Flavor::Valid, via_text: true,
+		t: vec![mk_nest(INNER, "c", "a", None, "٤٢", 1), mk_nest(LOCAL, "d", "a", Some(("m", "()V")), "1٣", 0), mk_nest(INNER, "e", "a", None, "٣D", 8), mk_nest(ANON, "g", "a", None, "7", 0)] }));
+	// an anonymous class mapped to C_<fullwidth digit>: construct_inner_name_from_anonymous_number must refuse
+	v.push(("fixed-numerics", World { m: mk_mappings(&[("a", "pkg/Outer", &[], &[]), ("g", "pkg/C_７", &[], &[])]), j: vec![mk_class("a", &[]), mk_class("g", &[])], flavor: Flavor::Valid, via_text: true,
+		t: vec![mk_nest(ANON, "g", "a", None, "7", 0)] }));
+	v
 }
 
 const OBJECT: &str = "java/lang/Object";
@@ -277,17 +417,20 @@ fn first_diff(a: &MMappings, b: &MMappings) -> String {
 }
 
 /// one world through the three entry points; returns true when something non-trivial happened
-fn through_world(r: &mut Report, w: &World, stream: &str) -> anyhow::Result<bool> {
+fn through_world(r: &mut Report, w: &World, n: &Nests<NA>, stream: &str) -> anyhow::Result<bool> {
 	let (m, t) = (&w.m, &w.t);
-	debug_assert!(acyclic(t));
 	let depth_max = { let ix = index(t); t.iter().map(|n| depth(&ix, &n.class)).max().unwrap_or(0) };
 	r.count(&format!("chain_depth_{}", depth_max.min(5)));
 	r.count(&format!("table_size_{}", t.len().min(6)));
+	if !acyclic(t) { r.count("table_cyclic"); }
+	else if depth_max >= 2 && listed_before_enclosing(t) > 0 { r.count("table_lists_a_nest_before_the_nest_of_its_enclosing_class(depth>=2)"); }
+	if t.iter().any(|n| n.inner.iter().any(|&c| c > 127 && char::from_u32(c).map_or(false, char::is_numeric))) { r.count("table_inner_name_with_non_ascii_numeric"); }
+	if m.classes.iter().any(|c| c.names[1].as_ref().map_or(false, |d| d.windows(2).any(|p| p == ['C' as u32, '_' as u32]) && d.iter().any(|&c| c > 127 && char::from_u32(c).map_or(false, char::is_numeric)))) { r.count("mappings_target_C_<non_ascii_numeric>"); }
 
 	// ---- remap_nests
 	let mut collisions = 0;
 	let want_t2 = ref_map_nests(t, m, &mut collisions);
-	let got_t2 = impl_map_nests(m, t)?;
+	let got_t2 = impl_map_nests(m, n)?;
 	match &got_t2 {
 		Err(p) => r.violation(format!("remap_nests panicked: {p}"), replay_text("remap_nests panicked", w, "")),
 		Ok(got) => {
@@ -302,18 +445,17 @@ fn through_world(r: &mut Report, w: &World, stream: &str) -> anyhow::Result<bool
 			r.case(stream, format!("CMapNests {} {} {}", g_table(t), g_mappings(m), gres(got.as_ref().map(g_table))));
 		}
 	}
-	// the mapped table may be cyclic when the class mapping is not injective: the real code would
-	// recurse without bound (stack overflow aborts the process), so apply is not run then
-	let t2_ok = match &want_t2 { Ok(t2) => acyclic(t2), Err(()) => true };
-	if !t2_ok { r.count("mapped_table_cyclic_apply_skipped"); return Ok(false); }
+	// an acyclic table can have a cyclic image (already nested target names override the enclosing class):
+	// apply must answer with an error then, like for a table that is cyclic itself
+	if let Ok(t2) = &want_t2 { if acyclic(t) && !acyclic(t2) { r.count("image_of_acyclic_table_is_cyclic(apply must return Err)"); } }
 
 	// ---- apply
-	let got_apply = impl_apply(m, t)?;
+	let got_apply = impl_apply(m, n)?;
 	let want_apply = match &want_t2 { Ok(t2) => ref_apply(m, t, t2), Err(()) => Expect::Err };
 	if expect_of(&got_apply) != want_apply {
 		let what = match (&got_apply, &want_apply) {
 			(Ok(Some(g)), Expect::Ok(wnt)) => format!("apply_nests_to_mappings: result differs from the documented renaming (Enclosing$Inner transitively, descriptors rewritten): {}", first_diff(g, wnt)),
-			(g, wnt) => format!("apply_nests_to_mappings: implementation {}, reference {}", match g { Err(p) => format!("panicked ({p})"), Ok(None) => "returned Err".into(), Ok(Some(_)) => "returned Ok".into() }, match wnt { Expect::Ok(_) => "Ok", Expect::Err => "Err", Expect::Panic => "panic (class without target name)" }),
+			(g, wnt) => format!("apply_nests_to_mappings: implementation {}, reference {}", match g { Err(p) => format!("panicked ({p})"), Ok(None) => "returned Err".into(), Ok(Some(_)) => "returned Ok".into() }, match wnt { Expect::Ok(_) => "Ok", Expect::Err => "Err (cyclic table or image, malformed descriptor, key collision)", Expect::Panic => "panic" }),
 		};
 		r.violation(what.clone(), replay_text(&what, w, ""));
 	}
@@ -329,7 +471,7 @@ fn through_world(r: &mut Report, w: &World, stream: &str) -> anyhow::Result<bool
 		let desc_changed = m.classes.iter().zip(&m1.classes).any(|(a, b)| a.fields.iter().zip(&b.fields).any(|(f, g)| f.desc != g.desc) || a.methods.iter().zip(&b.methods).any(|(f, g)| f.desc != g.desc));
 		if renamed > 0 { r.count("apply_renamed_some_class"); nontrivial = true; }
 		if desc_changed { r.count("apply_rewrote_some_descriptor"); }
-		let got_undo = impl_undo(m1, t)?;
+		let got_undo = impl_undo(m1, n)?;
 		let want_undo = ref_undo(m1, t);
 		if expect_of(&got_undo) != want_undo {
 			let what = format!("undo_nests_to_mappings differs from the documented inverse renaming: implementation {:?}", match &got_undo { Err(p) => format!("panicked ({p})"), Ok(None) => "Err".into(), Ok(Some(g)) => match &want_undo { Expect::Ok(wn) => first_diff(g, wn), _ => "Ok".into() } });
@@ -350,11 +492,12 @@ fn through_world(r: &mut Report, w: &World, stream: &str) -> anyhow::Result<bool
 		}
 		r.case(stream, format!("CUndo {} {} {}", g_table(t), g_mappings(m1), g_outcome(&got_undo)));
 	}
-	let got_undo0 = impl_undo(m, t)?;
+	let got_undo0 = impl_undo(m, n)?;
 	if expect_of(&got_undo0) != ref_undo(m, t) {
-		let what = "undo_nests_to_mappings (on mappings that were not nested) differs from the documented inverse renaming".to_string();
+		let what = format!("undo_nests_to_mappings (on mappings that were not nested) differs from the documented inverse renaming: implementation {}", match &got_undo0 { Err(p) => format!("panicked ({p})"), Ok(None) => "returned Err".into(), Ok(Some(_)) => "returned Ok".into() });
 		r.violation(what.clone(), replay_text(&what, w, ""));
 	}
+	if !acyclic(t) { r.count(match &got_undo0 { Ok(None) => "undo_err_on_cyclic_table", _ => "undo_not_err_on_cyclic_table" }); }
 	r.case(stream, format!("CUndo {} {} {}", g_table(t), g_mappings(m), g_outcome(&got_undo0)));
 	Ok(nontrivial)
 }
@@ -371,21 +514,28 @@ fn jar_replay(what: &str, w: &World, remap: bool, extra: &str) -> String {
 	s
 }
 
-/// the jar side: nest_jar on the world's jar, every output class parsed by the independent parser
-fn through_jar(r: &mut Report, w: &World, remap: bool, stream: &str) {
+enum Exp { Class { spec: JSpec, had: usize, created: bool }, Other }
+
+/// the jar side: nest_jar on the world's jar, every output class parsed by the independent parser.
+/// The output is compared as a SET keyed by entry name, and only for what the property states: which
+/// classes exist under which name, every reference rewritten, the InnerClasses / EnclosingMethod
+/// records, other entries kept; of a created enclosing class only its existence, its name and its own
+/// nesting records (not its flags, super class or version; not the position of any entry).
+fn through_jar(r: &mut Report, w: &World, nests: &Nests<NA>, remap: bool, stream: &str) {
 	let (t, j) = (&w.t, &w.j);
 	let extra: Vec<(String, Option<Vec<u8>>)> = vec![("META-INF/".into(), None), ("META-INF/MANIFEST.MF".into(), Some(b"Manifest-Version: 1.0\r\n".to_vec()))];
-	let ans = impl_nest_jar(remap, j, &extra, t);
+	let ans = impl_nest_jar(remap, j, &extra, nests.clone());
 	let stream = format!("jar-{stream}");
-	let rn = ref_nesting(j, t);
-	let fix = index(&rn.applied);
-	let f = |c: &S| if remap { ref_tr(&fix, c).expect("acyclic") } else { c.clone() };
+	let view = jar_view(j);
+	let rn = ref_nesting(&view, t);
 	r.count(if remap { "jar_remap_true" } else { "jar_remap_false" });
+	let cyclic = !acyclic(&rn.applied);
 	let out = match ans {
 		Err(p) => { let what = format!("nest_jar panicked: {p}"); r.violation(what.clone(), jar_replay(&what, w, remap, "")); return; }
 		Ok(None) => {
 			let bad_encl_desc = remap && rn.applied.iter().any(|n| n.kind != INNER && n.meth.as_ref().map_or(false, |(_, d)| ref_desc(&|x| x.clone(), d).is_none()));
-			if bad_encl_desc { r.count("jar_err(malformed enclosing method descriptor)"); }
+			if cyclic { r.count("jar_err(cyclic table of applicable nests)"); }
+			else if bad_encl_desc { r.count("jar_err(malformed enclosing method descriptor)"); }
 			else if !j.is_empty() { let what = "nest_jar returned Err on a jar with classes".to_string(); r.violation(what.clone(), jar_replay(&what, w, remap, "")); }
 			if j.is_empty() { r.count("jar_err(no classes)"); }
 			r.case(&stream, format!("CJar {} {} {} Err", gbool(remap), g_jar(j), g_table(t)));
@@ -393,69 +543,102 @@ fn through_jar(r: &mut Report, w: &World, remap: bool, stream: &str) {
 		}
 		Ok(Some(o)) => o,
 	};
+	if cyclic {
+		let what = "nest_jar returned Ok although the nests that apply to the jar form a cycle (a class transitively enclosed by itself)".to_string();
+		r.violation(what.clone(), jar_replay(&what, w, remap, ""));
+		return;
+	}
+	let fix = index(&rn.applied);
+	let f = |c: &S| if remap { ref_tr(&fix, c).expect("acyclic") } else { c.clone() };
 	r.count(&format!("jar_applied_{}_of_{}", if rn.applied.len() == t.len() { "all" } else { "some" }, if t.is_empty() { "empty" } else { "table" }));
 	if !rn.created.is_empty() { r.count("jar_enclosing_class_created"); }
 	if rn.created_listed { r.count("jar_created_class_is_itself_listed"); }
 	if rn.created.iter().any(|c| !rn.applied.iter().any(|n| &n.encl == c)) { r.count("jar_enclosing_class_created_for_an_entry_that_is_then_rejected"); }
 	for n in &rn.applied { r.count(match n.kind { ANON => "jar_nested_anonymous", INNER => "jar_nested_inner", _ => "jar_nested_local" }); }
-	// expected: created classes, then the entries of the input in order
-	let min_major = j.iter().map(|c| c.major).min().unwrap_or(52);
-	let mut expected: Vec<(String, Option<(JSpec, usize)>)> = vec![];
-	for c in &rn.created {
-		let spec = JSpec { major: min_major, access: 0x0001, name: c.clone(), super_class: Some(cps_str(OBJECT)), interfaces: vec![], fields: vec![], methods: vec![], inner: None, encl: None };
-		let e = expected_class(&spec, fix.get(c).copied(), &f);
-		expected.push((entry_name(&e.name), Some((e, 0))));
+	{
+		// the order-dependent situation (theorem C14_filter_order_dependent): a listed class that is not in the
+		// jar is created as a missing enclosing class AFTER its own entry was skipped.  Outside the premise.
+		let mut a: Vec<S> = rn.applied.iter().map(|n| n.class.clone()).collect(); a.sort();
+		let mut b = applied_fixpoint(&view, t); b.sort();
+		if a != b { r.count("jar_filter_order_dependent(listed class created after its entry was skipped; outside the premise)"); }
 	}
-	for (n, _) in &extra { expected.push((n.clone(), None)); }
+	// expected entries, keyed by name
+	let mut expected: indexmap::IndexMap<String, Exp> = indexmap::IndexMap::new();
+	let mut clash = false;
+	for c in &rn.created {
+		let spec = JSpec { major: 52, access: 0x0001, name: c.clone(), super_class: Some(cps_str(OBJECT)), interfaces: vec![], fields: vec![], methods: vec![], inner: None, encl: None };
+		let e = expected_class(&spec, fix.get(c).copied(), &f);
+		clash |= expected.insert(entry_name(&e.name), Exp::Class { spec: e, had: 0, created: true }).is_some();
+	}
+	for (n, _) in &extra { clash |= expected.insert(n.clone(), Exp::Other).is_some(); }
 	for c in j {
 		let e = expected_class(c, fix.get(&c.name).copied(), &f);
-		expected.push((entry_name(&e.name), Some((e, c.inner.as_ref().map_or(0, |v| v.len())))));
+		clash |= expected.insert(entry_name(&e.name), Exp::Class { spec: e, had: c.inner.as_ref().map_or(0, |v| v.len()), created: false }).is_some();
 	}
-	{
-		// two classes end up under one name (the renaming is not injective on this jar): the later
-		// entry replaces the earlier one in the output map; outside the hypotheses, only counted
-		let mut names: std::collections::HashSet<&String> = std::collections::HashSet::new();
-		if !expected.iter().all(|(n, _)| names.insert(n)) { r.count("jar_two_classes_one_name(hypothesis violated, not compared)"); return; }
-	}
+	// two classes end up under one name (the renaming is not injective on this jar): the later
+	// entry replaces the earlier one in the output map; outside the hypotheses, only counted
+	if clash { r.count("jar_two_classes_one_name(hypothesis violated, not compared)"); return; }
 	let mut problems: Vec<String> = vec![];
-	if out.len() != expected.len() { problems.push(format!("{} entries in the output, {} expected", out.len(), expected.len())); }
 	let mut g_out: Vec<String> = vec![];
 	let mut model_ok = true;
-	for ((name, content), (ename, espec)) in out.iter().zip(&expected) {
-		match (content, espec) {
-			(OutEntry::Class(bytes), Some((spec, had))) => {
+	let mut seen: std::collections::HashSet<&String> = std::collections::HashSet::new();
+	let mut out_names: std::collections::HashMap<String, S> = std::collections::HashMap::new();   // entry name -> class name inside
+	for (name, content) in &out {
+		if !seen.insert(name) { problems.push(format!("entry {name:?} occurs twice in the output")); model_ok = false; continue; }
+		match (content, expected.get(name)) {
+			(_, None) => {
+				let inside = if let OutEntry::Class(b) = content { raw::parse(b).and_then(|rc| facts_from_raw(&rc)).map(|f| f.name.to_string_lossy()).unwrap_or_else(|e| format!("unparsable: {e}")) } else { "-".into() };
+				problems.push(format!("unexpected entry {name:?} (class inside: {inside})")); model_ok = false;
+			}
+			(OutEntry::Class(bytes), Some(Exp::Class { spec, had, created })) => {
 				match raw::parse(bytes).and_then(|rc| facts_from_raw(&rc)) {
 					Err(e) => { problems.push(format!("output class {name} is rejected by the independent parser: {e}")); model_ok = false; }
 					Ok(facts) => {
 						g_out.push(g_out_class(&facts, *had));
-						if name != ename { problems.push(format!("entry name {name:?}, expected {ename:?} (class {})", facts.name)); }
+						out_names.insert(name.clone(), facts.name.code_points());
 						match facts_of_spec(spec) {
 							Err(e) => problems.push(format!("harness: expected class does not assemble: {e}")),
+							Ok(want) if *created => {
+								if facts.name != want.name { problems.push(format!("created class in entry {name}: named {}, expected {}", facts.name, want.name)); }
+								if facts.inner_classes != want.inner_classes { problems.push(format!("created class {name}: InnerClasses {:?}, expected {:?}", facts.inner_classes, want.inner_classes)); }
+								if facts.enclosing_method != want.enclosing_method { problems.push(format!("created class {name}: EnclosingMethod {:?}, expected {:?}", facts.enclosing_method, want.enclosing_method)); }
+							}
 							Ok(want) => { let d = facts.diff(&want); if !d.is_empty() { problems.push(format!("class {name}: {}", d.iter().take(6).cloned().collect::<Vec<_>>().join("; "))); } }
 						}
 					}
 				}
 			}
-			(OutEntry::Other(_), None) | (OutEntry::Dir, None) => { if name != ename { problems.push(format!("entry {name:?} where {ename:?} was expected")); } }
-			_ => { problems.push(format!("entry {name:?}: kind differs from the expected entry {ename:?}")); model_ok = false; }
+			(OutEntry::Other(_), Some(Exp::Other)) | (OutEntry::Dir, Some(Exp::Other)) => {}
+			_ => { problems.push(format!("entry {name:?}: kind differs from the expected entry")); model_ok = false; }
 		}
 	}
+	for name in expected.keys() { if !seen.contains(name) { problems.push(format!("entry {name:?} is missing from the output")); model_ok = false; } }
 	if !problems.is_empty() {
 		let what = format!("nest_jar output differs from the documented nesting (exactly the applicable classes renamed to Enclosing$Inner, every reference rewritten, InnerClasses/EnclosingMethod recorded, missing enclosing classes created): {}", problems.iter().take(4).cloned().collect::<Vec<_>>().join(" | "));
 		r.violation(what.clone(), jar_replay(&what, w, remap, &format!("\nall differences:\n{}\n", problems.join("\n"))));
 	}
 	// jar names = mapping names, for tables whose entries all apply
-	if remap && rn.applied.len() == t.len() && acyclic(t) {
-		r.count("jar_mapping_agreement_checked");
+	let premise = all_in_jar(&view, t);
+	if remap && acyclic(t) && (premise || rn.applied.len() == t.len()) {
+		r.count(if premise { "jar_mapping_agreement_checked(every listed class in the jar: order-independent premise)" } else { "jar_mapping_agreement_checked(all entries apply only thanks to classes created earlier in table order)" });
 		let tix = index(t);
-		for ((_, content), c) in out.iter().skip(rn.created.len() + extra.len()).zip(j) {
-			if let OutEntry::Class(bytes) = content {
-				if let Ok(facts) = raw::parse(bytes).and_then(|rc| facts_from_raw(&rc)) {
-					let mapping_side = ref_tr(&tix, &c.name).expect("acyclic");
-					if facts.name.code_points() != mapping_side {
-						let what = format!("jar and mappings disagree on the name of class {}: jar {}, mappings {}", show(&c.name), facts.name, show(&mapping_side));
-						r.violation(what.clone(), jar_replay(&what, w, remap, ""));
-					}
+		for c in j.iter().map(|c| &c.name).chain(rn.created.iter()) {
+			let mapping_side = ref_tr(&tix, c).expect("acyclic");
+			let jar_side = out_names.get(&entry_name(&mapping_side));
+			if jar_side != Some(&mapping_side) {
+				let what = format!("jar and mappings disagree on the name of class {}: mappings {}, the jar has no class of that name (jar classes: {})", show(c), show(&mapping_side), out_names.values().map(|x| show(x)).collect::<Vec<_>>().join(", "));
+				r.violation(what.clone(), jar_replay(&what, w, remap, ""));
+			}
+		}
+		// the table is a map: under the order-independent premise any other order must give the same classes
+		if premise && t.len() >= 2 {
+			let mut t2 = t.clone(); t2.reverse();
+			if let Ok(Some(out2)) = impl_nest_jar(remap, j, &extra, to_nests(&t2)) {
+				r.count("jar_order_independence_checked(reversed table)");
+				let names = |o: &Vec<(String, OutEntry)>| { let mut v: Vec<String> = o.iter().map(|(n, _)| n.clone()).collect(); v.sort(); v };
+				if names(&out) != names(&out2) {
+					let what = format!("nest_jar depends on the order of the table although every listed class is in the jar: entries {:?} vs {:?} for the reversed table", names(&out), names(&out2));
+					r.violation(what.clone(), jar_replay(&what, w, remap, ""));
 				}
 			}
 		}
@@ -520,7 +703,7 @@ fn through_strip(r: &mut Report, inner: &str) {
 	let mk = |name: &str| JSpec { major: 52, access: 0x21, name: cps_str(name), super_class: obj.clone(), interfaces: vec![], fields: vec![], methods: vec![], inner: None, encl: None };
 	let j = vec![mk("A"), mk("B")];
 	let t = vec![MNest { kind: INNER, class: cps_str("B"), encl: cps_str("A"), meth: None, inner: cps_str(inner), access: 0 }];
-	match impl_nest_jar(false, &j, &[], &t) {
+	match impl_nest_jar(false, &j, &[], to_nests(&t)) {
 		Ok(Some(out)) => {
 			let got = out.iter().find_map(|(name, e)| match e { OutEntry::Class(b) if name == "B.class" => raw::parse(b).and_then(|rc| facts_from_raw(&rc)).ok(), _ => None })
 				.and_then(|f| f.inner_classes.and_then(|v| v.last().cloned())).and_then(|e| e.inner_name);
@@ -538,57 +721,88 @@ fn through_strip(r: &mut Report, inner: &str) {
 	}
 }
 
-/// a cyclic table (A enclosed by B, B enclosed by A): the real code recurses without bound.  Run in a
-/// child process, because a stack overflow aborts the process; only recorded, never a violation
-/// (cyclic tables are outside the hypotheses).
-fn cycle_probe(r: &mut Report, ctx: &Ctx) {
-	let exe = match std::env::current_exe() { Ok(e) => e, Err(_) => return };
-	let out = std::process::Command::new(exe).arg(ctx.seed.to_string()).arg("quick").arg(&ctx.out).arg("cycle-probe")
-		.stdout(std::process::Stdio::null()).stderr(std::process::Stdio::null()).status();
-	let note = match out {
-		Ok(st) if st.success() => "cyclic table: apply_nests_to_mappings returned normally in the child process".to_string(),
-		Ok(st) => { r.count("cyclic_table_child_process_died"); format!("cyclic table (A in B, B in A): apply_nests_to_mappings does not return; the child process ended with {st} (unbounded recursion; the model runs out of fuel and the theorems assume acyclic tables)") }
-		Err(e) => format!("cycle probe could not be started: {e}"),
-	};
-	r.notes.push(note);
+/// Cyclic tables used to make the real code recurse without bound (stack overflow, SIGABRT); the
+/// repaired code returns an error.  The fixed witnesses are run in a child process FIRST, so that a
+/// regression is reported as a violation with its input instead of killing the harness; the generated
+/// cyclic worlds run in-process only when the child survived.
+const PROBES: [&str; 4] = [
+	"apply_nests_to_mappings, table A in B, B in A (cyclic), mappings A -> X",
+	"apply_nests_to_mappings, ACYCLIC table c1 in Outer (inner I), c2 in c1 (inner J), mappings c1 -> P__Q, c2 -> P: remap_nests gives the cyclic table P__Q in P, P in P__Q",
+	"undo_nests_to_mappings, table A in B, B in A (cyclic), mappings A -> X",
+	"nest_jar(remap=true), jar {A, B}, table A in B, B in A (cyclic)",
+];
+fn probe(k: usize) -> bool {
+	let cyc = vec![mk_nest(INNER, "A", "B", None, "A", 0), mk_nest(INNER, "B", "A", None, "B", 0)];
+	let m = mk_mappings(&[("A", "X", &[], &[])]);
+	match k {
+		0 => dukenest::apply_nests_to_mappings(to_quill::<2, (NA, NB)>(&m).expect("mappings"), &to_nests::<NA>(&cyc)).is_err(),
+		1 => {
+			let t = vec![mk_nest(INNER, "c1", "Outer", None, "I", 1), mk_nest(INNER, "c2", "c1", None, "J", 1)];
+			let m = mk_mappings(&[("c1", "P__Q", &[], &[]), ("c2", "P", &[], &[])]);
+			dukenest::apply_nests_to_mappings(to_quill::<2, (NA, NB)>(&m).expect("mappings"), &to_nests::<NA>(&t)).is_err()
+		}
+		2 => dukenest::undo_nests_to_mappings(to_quill::<2, (NA, NB)>(&m).expect("mappings"), &to_nests::<NA>(&cyc)).is_err(),
+		_ => matches!(impl_nest_jar(true, &[mk_class("A", &[]), mk_class("B", &[])], &[], to_nests(&cyc)), Ok(None)),
+	}
 }
-fn cycle_probe_child() -> ! {
-	let t = vec![
-		MNest { kind: INNER, class: cps_str("A"), encl: cps_str("B"), meth: None, inner: cps_str("A"), access: 0 },
-		MNest { kind: INNER, class: cps_str("B"), encl: cps_str("A"), meth: None, inner: cps_str("B"), access: 0 }];
-	let m = MMappings { ns: vec![cps_str("official"), cps_str("named")], doc: None, classes: vec![MClass { names: vec![Some(cps_str("A")), Some(cps_str("X"))], doc: None, fields: vec![], methods: vec![] }] };
-	let q: Q = to_quill(&m).expect("mappings");
-	let n: Nests<NA> = to_nests(&t);
-	let _ = dukenest::apply_nests_to_mappings(q, &n);
-	std::process::exit(0)
+/// true = every probe returned Err in the child process
+fn cycle_probe(r: &mut Report, ctx: &Ctx) -> bool {
+	let exe = match std::env::current_exe() { Ok(e) => e, Err(_) => return true };
+	let mut all_ok = true;
+	for (k, what) in PROBES.iter().enumerate() {
+		let out = std::process::Command::new(&exe).arg(ctx.seed.to_string()).arg("quick").arg(&ctx.out).arg(format!("cycle-probe-{k}"))
+			.stdout(std::process::Stdio::null()).stderr(std::process::Stdio::null()).status();
+		match out {
+			Ok(st) if st.code() == Some(0) => r.count("cyclic_table_probe_returned_Err(child process)"),
+			Ok(st) => {
+				all_ok = false;
+				let how = if st.code() == Some(3) { "returned Ok".to_string() } else { format!("did not return: the child process ended with {st} (unbounded recursion)") };
+				let what = format!("a cyclic nests table must be answered with an error: {what}: {how}");
+				r.violation(what.clone(), format!("property C14\nwhat: {what}\n"));
+			}
+			Err(e) => r.notes.push(format!("cycle probe could not be started: {e}")),
+		}
+	}
+	if all_ok { r.notes.push("cyclic tables (also the cyclic image of an acyclic table under c1 -> P__Q, c2 -> P): apply / undo / nest_jar return Err (fix c9cdfec); checked in a child process first, then on generated cyclic worlds in-process".into()); }
+	all_ok
 }
 
 pub fn run(ctx: &Ctx) -> anyhow::Result<Report> {
-	if ctx.replay.as_ref().map_or(false, |p| p.as_os_str() == "cycle-probe") { cycle_probe_child(); }
+	if let Some(k) = ctx.replay.as_ref().and_then(|p| p.to_str()).and_then(|p| p.strip_prefix("cycle-probe-")).and_then(|k| k.parse::<usize>().ok()) {
+		std::process::exit(if probe(k) { 0 } else { 3 });
+	}
 	let mut r = Report::new("C14", "C14.Run");
 	let mut rng = Rng::new(ctx.seed);
 	r.shard_size = 200;
-	r.rule = "worlds = (mapping set with 2 namespaces, nests table) over a universe of 2..8 source classes (packages, `$`-nested names, unicode): tables are acyclic by construction (a class is enclosed by an earlier class of the universe or by an outside class), chains of depth 1..5, inner/local/anonymous nests with derived and custom inner names, nests for classes that are in no mapping, target names in Calamus form C_<n> and already nested Encl__Inner; every world goes through remap_nests, apply_nests_to_mappings, undo_nests_to_mappings (on the applied and on the original mappings) and is judged by the independent reference; separate streams violate one hypothesis each: classes without target name, a translation that is not injective (an unlisted class carries the name a listed class is renamed to), malformed descriptors / inner names / target names; the nests text format is round-tripped through Nests::read together with malformed lines. A world is non-trivial when apply renamed at least one class; distinct by (table, mappings).".into();
+	r.rule = "worlds = (mapping set with 2 namespaces, nests table, jar) over a universe of 2..8 source classes (packages, `$`-nested names, unicode, numeric characters that are not ASCII digits): chains of depth 1..5, inner/local/anonymous nests with derived and custom inner names, inner names and C_<n> target names with Arabic-Indic / fullwidth / superscript / circled / Roman numerals, nests for classes that are in no mapping or no jar, target names in Calamus form C_<n> and already nested Encl__Inner; tables are shuffled and in one world of four listed inner-most first (every nest before the nest of its enclosing class); one world of three reaches the implementation through the TEXT reader (Nests::read of the table's text) and the kinds it assigns are compared with an independent ASCII-only classification; every world goes through remap_nests, apply_nests_to_mappings, undo_nests_to_mappings (on the applied and on the original mappings) and nest_jar and is judged by the independent reference; separate streams violate one hypothesis each: classes without target name, a translation that is not injective, malformed descriptors / inner names / target names, CYCLIC tables and acyclic tables with a cyclic image (Err expected, compared with the model's Err); fixed worlds in every run: chains listed inner-most first, the cyclic-image witness, the order-dependent creation of a listed class, non-ASCII numerics through the reader; rich jars (corpus classes and gen_class output: signatures, annotations, local variable tables, stack map frames, catch types, invokedynamic, method handles/types, NestHost/NestMembers/PermittedSubclasses/Record, multianewarray, pre-existing EnclosingMethod) are nested and every reference position of every output class is compared with the specification of reference positions (C07's spec_remap) applied to the input; the nests text format is round-tripped through Nests::read together with malformed lines. A world is non-trivial when apply renamed at least one class; distinct by (table, mappings).".into();
 
+	let survived = cycle_probe(&mut r, ctx);
+
+	let mut worlds: Vec<(&'static str, World)> = fixed_worlds();
+	let n_fixed = worlds.len();
 	let n = if ctx.thorough { 6000 } else { 640 };
-	for i in 0..n {
-		let (flavor, stream) = match i % 10 { 0 => (Flavor::NoDst, "no-target-name"), 1 => (Flavor::Collide, "not-injective"), 2 | 3 => (Flavor::Weird, "weird"), _ => (Flavor::Valid, "world") };
-		let w = gen_world(&mut rng, flavor);
-		if !acyclic(&w.t) { r.count("generator_cyclic_table_skipped"); continue; }
-		let nontrivial = through_world(&mut r, &w, stream)?;
-		if i % 2 == 0 || flavor == Flavor::Valid { through_jar(&mut r, &w, i % 4 != 3, stream); }
+	for i in 0..n + n_fixed {
+		let (stream, w) = if i < n_fixed { let (s, w) = worlds.remove(0); (s, w) } else {
+			let k = i - n_fixed;
+			let (flavor, stream) = match k % 10 { 0 => (Flavor::NoDst, "no-target-name"), 1 => (Flavor::Collide, "not-injective"), 2 | 3 => (Flavor::Weird, "weird"), 4 => (Flavor::Cyclic, "cyclic"), _ => (Flavor::Valid, "world") };
+			(stream, gen_world(&mut rng, flavor, k % 3 == 1))
+		};
+		let flavor = w.flavor;
+		if flavor == Flavor::Cyclic && !survived { r.count("cyclic_world_not_run(the probe died)"); continue; }
+		let nests = world_nests(&mut r, &w, stream);
+		let nontrivial = through_world(&mut r, &w, &nests, stream)?;
+		if i < n_fixed { through_jar(&mut r, &w, &nests, true, stream); through_jar(&mut r, &w, &nests, false, stream); }
+		else if i % 2 == 0 || flavor == Flavor::Valid || flavor == Flavor::Cyclic { through_jar(&mut r, &w, &nests, i % 4 != 3, stream); }
 		r.eval(&format!("{}|{}", g_table(&w.t), g_mappings(&w.m)), nontrivial);
 		// text form
 		if i % 3 == 0 {
 			let valid_names = flavor != Flavor::Weird;
 			let text = gen_text(&mut rng, &w, false);
-			// what reading must give back: kinds are derived from the inner name by the reader
+			// what reading must give back: kinds are derived from the inner name, ASCII digits only
 			let expect: Option<MTable> = if valid_names {
 				let mut e: MTable = vec![];
 				for n in w.t.iter().filter(|n| !n.inner.is_empty()) {
-					let digits = n.inner.iter().take_while(|&&c| (48..=57).contains(&c)).count();
-					let kind = if digits == n.inner.len() { ANON } else if digits > 0 { LOCAL } else { INNER };
-					let mut x = n.clone(); x.kind = kind;
+					let mut x = n.clone(); x.kind = ascii_kind(&n.inner);
 					if let Some(p) = e.iter().position(|y| y.class == x.class) { e[p] = x; } else { e.push(x); }
 				}
 				Some(e)
@@ -598,10 +812,12 @@ pub fn run(ctx: &Ctx) -> anyhow::Result<Report> {
 			through_read(&mut r, &bad, "read-malformed", None);
 		}
 	}
-	for inner in ["Foo", "123Foo", "1", "1234", "123Bar4", "0", "00x", "x1", "1$2", "９x", "12ü", "7_"] { through_strip(&mut r, inner); }
-	cycle_probe(&mut r, ctx);
+	for inner in ["Foo", "123Foo", "1", "1234", "123Bar4", "0", "00x", "x1", "1$2", "９x", "12ü", "7_", "1٣", "٣D", "1２x"] { through_strip(&mut r, inner); }
+	// rich classes: every reference position
+	rich::run_rich(&mut r, &mut rng, if ctx.thorough { 500 } else { 48 });
 	// fixed texts
-	for s in ["", "\n", "A\tB\t\t\tC\t1", "A\tB\t\t\tC\t1\n\n", "A\tB\t\t\tC\t1\r", "A\tB\t\t\tC\t1\r\n", "A\tB\t\t\tC\t1\r\r\n", "\r\n", "\r", "A\tB\t\t\tC\t1\nX\tB\t\t\t2\t2\r", "A\tB\tm\t()V\t1C\t0x0019\r\nA$1\tA\tm\t\t1\t0b1\r\n", "A\tB\t\t()V\t12\t+7", "A\tB\tm\tnot a descriptor\tC\t0", "a/b/C\ta/b/D\t<init>\t(La/b/C;)V\t1\t0", "[A\tB\t\t\tC\t0", "A\tB\t\t\tC\t٣"] {
+	for s in ["", "\n", "A\tB\t\t\tC\t1", "A\tB\t\t\tC\t1\n\n", "A\tB\t\t\tC\t1\r", "A\tB\t\t\tC\t1\r\n", "A\tB\t\t\tC\t1\r\r\n", "\r\n", "\r", "A\tB\t\t\tC\t1\nX\tB\t\t\t2\t2\r", "A\tB\tm\t()V\t1C\t0x0019\r\nA$1\tA\tm\t\t1\t0b1\r\n", "A\tB\t\t()V\t12\t+7", "A\tB\tm\tnot a descriptor\tC\t0", "a/b/C\ta/b/D\t<init>\t(La/b/C;)V\t1\t0", "[A\tB\t\t\tC\t0", "A\tB\t\t\tC\t٣",
+		"c\ta\t\t\t٤٢\t1", "d\ta\tm\t()V\t1٣\t0", "e\ta\t\t\t٣D\t0", "f\ta\t\t\t１２\t0", "g\ta\t\t\t²\t0", "h\ta\tm\t()V\t7Ⅷ\t0"] {
 		through_read(&mut r, &cps_str(s), "read-fixed", None);
 	}
 	Ok(r)
